@@ -214,7 +214,17 @@ func (s *TokSim) Step() {
 		}
 		h := hs[s.Rng.Intn(len(hs))]
 		dst, relay := s.route(h.chain)
-		w.SendNft(h.chain, h.owner, h.class, h.id, s.receiver(dst), dst.Name, relay)
+		sender := h.owner
+		if s.Rng.Intn(15) == 0 {
+			// somebody else tries to send the token (must fail and change nothing)
+			for _, a := range h.chain.Accounts[1:] {
+				if a != h.owner {
+					sender = a
+					break
+				}
+			}
+		}
+		w.SendNft(h.chain, sender, h.class, h.id, s.receiver(dst), dst.Name, relay)
 	case x < 0.735 && s.Cfg.NFT:
 		// hostile: try to mint straight into a voucher class that exists on some chain (must be refused)
 		c := s.pick()
